@@ -146,6 +146,14 @@ class Data:
     def __setstate__(self, state):
         """Unpickle lattice from ``(context, concepts)`` tuple."""
         context, concepts = state
+        # extents/intents were pickled by class id: re-create them from the
+        # classes of the unpickled context (ids of another process may be
+        # unknown here or belong to a different live context)
+        make_objects = context._Objects.fromint
+        make_properties = context._Properties.fromint
+        for c in concepts:
+            c._extent = make_objects(c._extent)
+            c._intent = make_properties(c._intent)
         self._init(self, context, concepts, unpickle=True)
 
     def _tolist(self):
